@@ -1018,12 +1018,16 @@ class _SliceState:
         self.vals = {}       # name -> linear form / ('none',) / ('slice',..)
         self.facts = {'start': {'none', 'neg', 'zero', 'pos'},
                       'stop': {'none', 'neg', 'zero', 'pos'}}
+        # an integer bound is a Python int or a numpy integer scalar (the
+        # result of np.searchsorted, of len() arithmetic on arrays ...)
+        self.kinds = {'start': {'py', 'np'}, 'stop': {'py', 'np'}}
         self.trace = []
 
     def clone(self):
         new = _SliceState()
         new.vals = dict(self.vals)
         new.facts = {k: set(v) for k, v in self.facts.items()}
+        new.kinds = {k: set(v) for k, v in self.kinds.items()}
         new.trace = list(self.trace)
         return new
 
@@ -1125,6 +1129,39 @@ def _slice_table(func):
         if isinstance(expr, ast.UnaryOp) and isinstance(expr.op, ast.Not):
             tru, fal = cond(expr.operand, st)
             return fal, tru
+        if isinstance(expr, ast.Call) and isinstance(
+                expr.func, ast.Name) and expr.func.id == 'isinstance' and \
+                len(expr.args) == 2:
+            comp = comp_of(expr.args[0], st)
+            typ = txt(expr.args[1])
+            if comp is not None:
+                py_only = typ == 'int'
+                both = all(w in typ for w in ('int', 'integer')) or \
+                    'Integral' in typ
+                if py_only or both:
+                    # true: an integer (of the accepted kinds); false: None,
+                    # or an integer of the other kind
+                    tru = st.clone()
+                    tru.facts[comp] -= {'none'}
+                    if py_only:
+                        tru.kinds[comp] &= {'py'}
+                    tru.trace.append(f'{txt(expr)} -> true')
+                    falses = []
+                    if 'none' in st.facts[comp]:
+                        fal = st.clone()
+                        fal.facts[comp] = {'none'}
+                        fal.trace.append(f'{txt(expr)} -> false (None)')
+                        falses.append(fal)
+                    if py_only and 'np' in st.kinds[comp] and \
+                            st.facts[comp] - {'none'}:
+                        fal = st.clone()
+                        fal.facts[comp] -= {'none'}
+                        fal.kinds[comp] = {'np'}
+                        fal.trace.append(f'{txt(expr)} -> false (numpy '
+                                         f'integer)')
+                        falses.append(fal)
+                    ok = tru.facts[comp] and tru.kinds[comp]
+                    return ([tru] if ok else []), falses
         if isinstance(expr, ast.Compare) and len(expr.ops) == 1:
             comp = comp_of(expr.left, st)
             right = expr.comparators[0]
@@ -1259,6 +1296,9 @@ def check_slice_sign(ctx):
         where = meth.where(ret)
         row = f"start in {sorted(st.facts['start'])}, stop in " \
               f"{sorted(st.facts['stop'])}"
+        for comp_ in ('start', 'stop'):
+            if st.kinds[comp_] == {'np'}:
+                row += f', {comp_} a numpy integer'
         if not (isinstance(out, tuple) and out[0] == 'slice'):
             ctx.undecided('SLICE-SIGN', meth, f'return value not a slice '
                           f'[{row}]', at=where)
@@ -1277,15 +1317,16 @@ def check_slice_sign(ctx):
             ctx.holds('SLICE-SIGN', meth, f'start sign known [{row}]',
                       at=where)
             ctx.decide('SLICE-LIN', meth, f'negative start -> {ostart} '
-                       f'[{row}]', ostart == {'start': 1, 1: -1}, at=where,
+                       f'[{row}]', None if ostart is None else
+                       ostart == {'start': 1, 1: -1}, at=where,
                        detail='lower edge of cell N+s is edge N+s, i.e. '
                               'index s-1 from the end of the edges')
         else:
             ctx.holds('SLICE-SIGN', meth, f'start sign known [{row}]',
                       at=where)
             ctx.decide('SLICE-LIN', meth, f'non-negative/None start -> '
-                       f'{ostart} [{row}]', ostart == {'start': 1},
-                       at=where)
+                       f'{ostart} [{row}]', None if ostart is None else
+                       ostart == {'start': 1}, at=where)
         # stop
         pfacts = st.facts['stop'] - {'none'}
         if len(pfacts) > 1:
@@ -1295,11 +1336,13 @@ def check_slice_sign(ctx):
                          f'telling positive from negative [{row}]', at=where)
         elif pfacts == {'pos'}:
             ctx.decide('SLICE-LIN', meth, f'positive stop -> {ostop} '
-                       f'[{row}]', ostop == {'stop': 1, 1: 1}, at=where,
+                       f'[{row}]', None if ostop is None else
+                       ostop == {'stop': 1, 1: 1}, at=where,
                        detail='upper edge of the last retained cell')
         elif pfacts and pfacts <= {'neg', 'zero'}:
             ctx.decide('SLICE-LIN', meth, f'non-positive stop -> {ostop} '
-                       f'[{row}]', ostop == {'stop': 1}, at=where)
+                       f'[{row}]', None if ostop is None else
+                       ostop == {'stop': 1}, at=where)
         else:
             ctx.decide('SLICE-LIN', meth, f'None stop -> {ostop} [{row}]',
                        ostop == {'stop': 1} or ostop == ('none',), at=where)
@@ -1462,3 +1505,36 @@ def check_edge_kind(ctx):
                               at=meth.where(node))
     ctx.floor('EDGE-KIND', n, 1, 'selection between the cell slice and the '
                                  'edge slice')
+
+
+# ----------------------------------------------------------- INDEX-KEPT ---
+
+def check_index_kept(ctx):
+    """`ds[index]` cuts value, error and bins with THE slices it was given.
+    Re-binding the index to slices rebuilt from `slice.indices(n)` is not the
+    identity: for a negative step and an open stop indices() answers stop =
+    -1, which in a slice means "the last element", so ds[::-1] comes back
+    empty instead of reversed."""
+    klass = dataset_class(ctx.program)
+    meth = klass.methods.get('__getitem__')
+    if meth is None:
+        raise AnalysisError('Dataset.__getitem__ not found')
+    idx = [p for p in meth.params if p != 'self'][0]
+    n = 0
+    for node in walk_local(meth.node):
+        if isinstance(node, ast.Assign) and any(
+                isinstance(t, ast.Name) and t.id == idx
+                for t in node.targets):
+            n += 1
+            lossy = any(isinstance(c, ast.Call) and call_name(c) == 'indices'
+                        for c in ast.walk(node.value))
+            ctx.decide('INDEX-KEPT', meth,
+                       f'__getitem__: index re-bound: {txt(node)[:60]}',
+                       False if lossy else None, at=meth.where(node),
+                       detail='slice(*s.indices(n)) differs from s for '
+                              'negative steps (stop -1 = last element): '
+                              'reversed selections come back empty'
+                       if lossy else None)
+    if not n:
+        ctx.holds('INDEX-KEPT', meth, '__getitem__ uses the index it was '
+                  'given', at=meth.where(), nontrivial=False)
